@@ -25,6 +25,12 @@ CORPUS = [c01.CORPUS[1], c01.CORPUS[2],
                       "inputs": [{"src": [1, 0], "chain": []}]},
                      {"kind": "P", "nout": 1, "inputs": [{"src": [0, 0], "chain": []}]}],
            "end": 10 * sc.DAY},
+          # F17 (fixed): delay-resolved cycle P -> B -(10d)-> P entered through another, lagging consumer of P
+          {"comps": [{"kind": "T", "start": 0, "steps": [5 * sc.DAY], "initpull": False, "nout": 0, "inputs": [{"src": [1, 0], "chain": []}]},
+                     {"kind": "P", "nout": 1, "inputs": [{"src": [2, 0], "chain": []}]},
+                     {"kind": "T", "start": 0, "steps": [sc.DAY], "initpull": False, "nout": 1,
+                      "inputs": [{"src": [1, 0], "chain": [["fixed", 10 * sc.DAY]]}]}],
+           "end": 5 * sc.DAY},
           # undelayed ring of two
           {"comps": [{"kind": "T", "start": 0, "steps": [2], "initpull": False, "nout": 1, "inputs": [{"src": [1, 0], "chain": [["pass"]]}]},
                      {"kind": "T", "start": 0, "steps": [3], "initpull": False, "nout": 1, "inputs": [{"src": [0, 0], "chain": []}]}],
